@@ -156,10 +156,36 @@ def run(res):
             got = [crc_of(x) for x in R.read_rpu_file_raw(out)]
             if got != exp:
                 res.violation("identity editor pass returned %d RPUs, the file holds %d (%s)" % (len(got), len(exp), lbl), {"cmd": "editor {}", "label": lbl, "chunk_size": cs, "file_hex": C.hexs(data)})
+        # export -d all: one JSON object per entry, in order (CRC of each)
+        ej = os.path.join(tmp, "all.json")
+        p = subprocess.run([C.DOVI, "export", "-i", path, "-d", "all=" + ej], stdout=subprocess.PIPE, stderr=subprocess.STDOUT, env=env, timeout=300)
+        ncli += 1
+        if p.returncode == 0:
+            try:
+                crcs = [x["rpu_data_crc32"] for x in json.load(open(ej))]
+            except Exception:
+                crcs = None
+            if crcs != exp:
+                res.violation("export -d all wrote %s entries, the file holds %d, or their CRCs differ (%s)" % (None if crcs is None else len(crcs), len(exp), lbl), {"cmd": "export", "label": lbl, "chunk_size": cs, "file_hex": C.hexs(data)})
+        else:
+            res.violation("export fails on a valid RPU file (%s)" % lbl, {"cmd": "export", "label": lbl, "chunk_size": cs, "file_hex": C.hexs(data)})
+    # the commands on a file with an invalid last entry and on one with a short entry: an error status, no output list
+    for lbl, cs, data, exp in [f for f in files if f[3] is None and (f[0].startswith("corrupt #") or f[0].startswith("short entry") or f[0].startswith("truncated"))][:6]:
+        path = os.path.join(tmp, "bad.bin")
+        open(path, "wb").write(data)
+        env = dict(os.environ)
+        env["DOVI_TOOL_VERIF_CHUNK_SIZE"] = str(cs) if cs else ""
+        if not cs:
+            env.pop("DOVI_TOOL_VERIF_CHUNK_SIZE")
+        for args in (["info", "-i", path, "-s"], ["export", "-i", path, "-d", "all=" + os.path.join(tmp, "bad.json")]):
+            p = subprocess.run([C.DOVI] + args, stdout=subprocess.PIPE, stderr=subprocess.STDOUT, env=env, timeout=300)
+            ncli += 1
+            if p.returncode == 0:
+                res.violation("%s succeeds on an RPU file with an invalid entry (%s)" % (args[0], lbl), {"cmd": args[0], "label": lbl, "chunk_size": cs, "file_hex": C.hexs(data)})
     res.coverage.update({
         "evaluations": 2 * len(lines) + ncli,
         "distinct_nontrivial": len(files),
-        "rule": "RPU files of 1..N entries (sizes 25..2500 bytes, some followed by zero bytes) whose start codes are steered to every offset -4..+4 around multiples of the read chunk size, several chunks per file, files that are an exact multiple of the chunk size, one corrupted entry first / middle / last / in a later chunk, entries too short to be an RPU (truncated file, doubled start code, short garbage entry at any position), empty file, file without start code; read through the library reader with the hook chunk sizes (>= 8192 so that reads bypass the 8 KiB BufReader) and with the real 100000; expected list = what was written; Coq model of the loop compared; distinct files counted",
+        "rule": "RPU files of 1..N entries (sizes 25..2500 bytes, some followed by zero bytes) whose start codes are steered to every offset -4..+4 around multiples of the read chunk size, several chunks per file, files that are an exact multiple of the chunk size, one corrupted entry first / middle / last / in a later chunk, entries too short to be an RPU (truncated file, doubled start code, short garbage entry at any position), empty file, file without start code; read through the library reader with the hook chunk sizes (>= 8192 so that reads bypass the 8 KiB BufReader) and with the real 100000; expected list = what was written; Coq model of the loop compared; `info -s`, `editor {}` and `export -d all` on valid files, `info` / `export` must fail on files with an invalid or short entry; distinct files counted",
         "chunk_sizes": sizes + [100000], "disagreements": nd,
         "samples": [f[0] for f in files[:3]] + [files[-1][0]],
     })
